@@ -182,35 +182,7 @@ replaced.`)
 	}, 0, "split(sub) -> split string with sub.")
 
 	StringType.Dict["startswith"] = MustNewMethod("startswith", func(self Object, args Tuple) (Object, error) {
-		selfStr := string(self.(String))
-		prefix := []string{}
-		if len(args) > 0 {
-			if s, ok := args[0].(String); ok {
-				prefix = append(prefix, string(s))
-			} else if s, ok := args[0].(Tuple); ok {
-				for _, t := range s {
-					if v, ok := t.(String); ok {
-						prefix = append(prefix, string(v))
-					}
-				}
-			} else {
-				return nil, ExceptionNewf(TypeError, "startswith first arg must be str, unicode, or tuple, not %s", args[0].Type())
-			}
-		} else {
-			return nil, ExceptionNewf(TypeError, "startswith() takes at least 1 argument (0 given)")
-		}
-		if len(args) > 1 {
-			if s, ok := args[1].(Int); ok {
-				selfStr = selfStr[s:]
-			}
-		}
-
-		for _, s := range prefix {
-			if strings.HasPrefix(selfStr, s) {
-				return Bool(true), nil
-			}
-		}
-		return Bool(false), nil
+		return self.(String).tailMatch("startswith", args, strings.HasPrefix)
 	}, 0, "startswith(prefix[, start[, end]]) -> bool")
 
 	StringType.Dict["strip"] = MustNewMethod("strip", func(self Object, args Tuple, kwargs StringDict) (Object, error) {
@@ -617,6 +589,70 @@ func (s String) M__contains__(item Object) (Object, error) {
 		return nil, ExceptionNewf(TypeError, "'in <string>' requires string as left operand, not %s", item.Type().Name)
 	}
 	return NewBool(strings.Contains(string(s), string(needle))), nil
+}
+
+// indexArg converts an optional start/end argument (in characters)
+// of startswith and endswith: None selects the default
+func indexArg(arg Object, def int) (int, error) {
+	switch x := arg.(type) {
+	case NoneType:
+		return def, nil
+	case Int:
+		return int(x), nil
+	}
+	return 0, ExceptionNewf(TypeError, "slice indices must be integers or None or have an __index__ method")
+}
+
+// tailMatch implements startswith and endswith: match is applied to
+// self[start:end] (start and end counted in characters and adjusted
+// as for slicing) and each of the candidate strings
+func (s String) tailMatch(name string, args Tuple, match func(s, sub string) bool) (Object, error) {
+	subs := []string{}
+	if len(args) > 0 {
+		if sub, ok := args[0].(String); ok {
+			subs = append(subs, string(sub))
+		} else if tuple, ok := args[0].(Tuple); ok {
+			for _, t := range tuple {
+				if v, ok := t.(String); ok {
+					subs = append(subs, string(v))
+				}
+			}
+		} else {
+			return nil, ExceptionNewf(TypeError, "%s first arg must be str, unicode, or tuple, not %s", name, args[0].Type())
+		}
+	} else {
+		return nil, ExceptionNewf(TypeError, "%s() takes at least 1 argument (0 given)", name)
+	}
+	if len(args) > 3 {
+		return nil, ExceptionNewf(TypeError, "%s() takes at most 3 arguments (%d given)", name, len(args))
+	}
+	var (
+		size = s.len()
+		beg  = 0
+		end  = size
+		err  error
+	)
+	if len(args) > 1 {
+		if beg, err = indexArg(args[1], 0); err != nil {
+			return nil, err
+		}
+	}
+	if len(args) > 2 {
+		if end, err = indexArg(args[2], size); err != nil {
+			return nil, err
+		}
+	}
+	beg, end = adjustIndices(beg, end, size)
+	if beg > end {
+		return Bool(false), nil
+	}
+	str := string(s.slice(beg, end, size))
+	for _, sub := range subs {
+		if match(str, sub) {
+			return Bool(true), nil
+		}
+	}
+	return Bool(false), nil
 }
 
 // adjustIndices clamps a start/end pair given in characters the way
